@@ -500,6 +500,13 @@ class Stepper(Machine):
             recv = self.ev(fn.value, fr, st)
             if isinstance(recv, tuple) and recv[0] == "Q":
                 if fn.attr in ("put", "put_nowait", "get", "get_nowait", "empty", "qsize"):
+                    if fn.attr == "get" and isinstance(call, ast.Call):
+                        # get(timeout=t) / get(block=False): gives up with queue.Empty when nothing arrived in time - whether a message is there "in time"
+                        # is decided by the scheduler, so both outcomes are explored whenever the queue is empty at that point
+                        tmo = next((k.value for k in call.keywords if k.arg == "timeout"), call.args[1] if len(call.args) > 1 else None)
+                        blk = next((k.value for k in call.keywords if k.arg == "block"), call.args[0] if call.args else None)
+                        if (tmo is not None and not (isinstance(tmo, ast.Constant) and tmo.value is None)) or (isinstance(blk, ast.Constant) and blk.value is False):
+                            return ("queue", recv[1], "get_timeout")
                     return ("queue", recv[1], fn.attr)
                 raise AnalysisError(f"{self.loc(fr)}: queue operation `{fn.attr}` is outside the vocabulary")
             if isinstance(recv, tuple) and recv[0] == "THREAD":
@@ -952,7 +959,10 @@ class Stepper(Machine):
             st2 = st.qset(qn, (*content, v))
             outs = self._finish_stmt(st2, who, n, K(None), True)
             return [(s, Event(who, "put", f"{qn} <- {self.fmt_msgs((v,))}", loc)) for s, _ in outs]
-        if op == "get":
+        if op == "get_timeout" and not content:
+            t2 = replace(t, exc=True).gset("exc_kind", "other")
+            return [(self._goto_exc(self.put_th(st, who, t2), who, n), Event(who, "raise", f"queue.Empty: timed get on {qn} gave up (nothing arrived in time)", loc))]
+        if op in ("get", "get_timeout"):
             if not content:
                 return []  # blocked
             msg, rest = content[0], content[1:]
